@@ -343,3 +343,7 @@ mod tests {
         join.abort();
     }
 }
+
+#[cfg(feature = "pendulum_project_ntpd_rs_verif")]
+#[path = "/verif/hooks/ntpd/daemon_server.rs"]
+pub mod vh_daemon_server;
